@@ -28,7 +28,11 @@ def uri_param(t):
 
 def authority_of_uri(t):
     """True if t denotes the authority object of the uri parameter (Some-projection / unwrap of uri.authority())."""
+    if isinstance(t, tuple) and t[0] == "ok?" and is_call(t[1], "http::Uri::authority"):
+        return uri_param(t[1][2][0])        # `uri.authority()?`
     t = display_norm(t)
+    if is_call(t, "http::Uri::authority") and uri_param(t[2][0]):
+        return True     # (display_norm erases `?`; the Option itself cannot be displayed or asked for a port, so this is its content)
     if isinstance(t, tuple) and t[0] == "proj" and t[2].endswith("Some.0"):
         return is_call(t[1], "http::Uri::authority") and uri_param(t[1][2][0])
     if is_call(t, "std::option::Option::<T>::unwrap", "std::option::Option::<T>::expect"):
@@ -40,7 +44,28 @@ def classify(path):
     """-> (scheme literal | '*', explicit_port True/False/None, has_authority True/False/None, problems)"""
     scheme, explicit, has_auth, problems = None, None, None, []
     for c in path.conds:
-        if c[0] == "match":
+        if c[0] == "match" and isinstance(c[1], tuple) and c[1][0] == "ok?" and is_call(c[1][1], "http::Uri::scheme_str", "http::uri::Scheme::as_str"):
+            # `match uri.scheme_str()? { "ipps" => .., _ => .. }`: the literal arms of the unwrapped text
+            pat = c[4]
+            while pat and pat.get("k") in ("pref", "pderef"):
+                pat = pat["p"]
+            if pat and pat.get("k") == "pexpr" and isinstance(pat.get("e"), dict) and pat["e"].get("k") == "lit" and c[3] is not False:
+                scheme = pat["e"]["v"]
+            elif pat_is_catchall(pat) or c[3] is False:
+                scheme = "*" if scheme is None else scheme
+            else:
+                problems.append("unrecognised scheme test: %s" % cshow(c))
+        elif c[0] == "if" and is_call(c[1], "<is_err>") and c[1][2]:
+            # `x?` on an Option: continuing means it was Some
+            inner, present = c[1][2][0], (c[2] is False)
+            if is_call(inner, "http::Uri::scheme_str", "http::uri::Scheme::as_str"):
+                if not present:
+                    scheme = "*" if scheme is None else scheme
+            elif is_call(inner, "http::Uri::authority"):
+                has_auth = present
+            elif is_call(inner, *PORT_ACCESSORS) and authority_of_uri(inner[2][0]):
+                explicit = present
+        elif c[0] == "match":
             t, pat = c[1], c[4]
             neg = c[3] is False
             if is_call(t, "http::Uri::scheme_str") or is_call(t, "http::uri::Scheme::as_str"):
